@@ -23,11 +23,17 @@ FREE_LABELS = ['phase', 'contrast', 'set', 'average', 'slice']  # the labels the
 
 def generate(rng: random.Random, tier: str):
     thorough = tier == 'thorough'
-    return [{'kind': 'seq', 'other': rng.choice([1, 1, 2, 3]), 'k2': rng.choice([1, 2, 3]), 'k1': rng.choice([2, 4, 6]), 'steps': rng.randint(1, 7 if thorough else 4),
-             'seed': rng.randrange(1 << 30)} for _ in range(250 if thorough else 40)]
+    cases = []
+    for _ in range(250 if thorough else 40):
+        n_rec = rng.choice([3, 4, 4, 5, 6])
+        cases.append({'kind': 'seq', 'other': rng.choice([1, 1, 2, 3]), 'k2': rng.choice([1, 2, 3]), 'k1': rng.choice([2, 4, 6]), 'steps': rng.randint(1, 7 if thorough else 4),
+                      'n_rec': n_rec, 'n_k0': rng.choice([2 * n_rec, 2 * n_rec, n_rec + 3, n_rec + 4]), 'seed': rng.randrange(1 << 30)})
+    return cases
 
 
-def make_kdata(case, rng, n_k0=8, n_coils=3):
+def make_kdata(case, rng, n_k0=None, n_coils=3):
+    # readout length and reconstruction matrix of every parity (2x oversampling and others)
+    n_k0, n_rec = case.get('n_k0', 8), case.get('n_rec', 4)
     from mrpro.data import KData
     from mrpro.data.traj_calculators import KTrajectoryIsmrmrd
 
@@ -39,7 +45,7 @@ def make_kdata(case, rng, n_k0=8, n_coils=3):
         acqs.append(a)
         ident += 1
     rng.shuffle(acqs)
-    fn = mrd.write_file(acqs, n_k0=n_k0, n_coils=n_coils, enc_matrix=(n_k0, case['k1'], case['k2']), recon_matrix=(n_k0 // 2, case['k1'], case['k2']))
+    fn = mrd.write_file(acqs, n_k0=n_k0, n_coils=n_coils, enc_matrix=(n_k0, case['k1'], case['k2']), recon_matrix=(n_rec, case['k1'], case['k2']))
     return KData.from_file(fn, KTrajectoryIsmrmrd())
 
 
@@ -144,9 +150,12 @@ def run(case, drv) -> Outcome:
                 img_full = F.H(kd.data)[0]
                 img_new = F.H(new.data)[0]
                 n_new = new.data.shape[-1]
-                s0 = (k0 - n_new) // 2
+                # the reduced field of view is centred: the centre pixel (index n//2, position 0 of the centred FFT convention)
+                # stays the centre pixel
+                s0 = k0 // 2 - n_new // 2
                 if n_new != kd.header.recon_matrix.x or not torch.allclose(img_new, img_full[..., s0:s0 + n_new], atol=1e-4):
-                    viol = viol or v('remove_os-fov', 'the image inside the reduced field of view changed')
+                    viol = viol or v(f'remove_os-fov:{"even" if k0 % 2 == 0 else "odd"}->{"even" if n_new % 2 == 0 else "odd"}',
+                                     f'the image inside the (centred) reduced field of view changed: readout {k0} -> {n_new}')
                 if list(new.traj.kx.shape[-1:]) not in ([n_new], [1]) or int(new.header.acq_info.number_of_samples.flatten()[0]) != n_new:
                     viol = viol or v('remove_os-shapes', 'trajectory / header sample counts do not match the cropped data')
         else:
